@@ -23,6 +23,7 @@ type watched struct {
 	observe  bool
 	shown    []string // value set this container showed at the last (passed) check
 	rootCat  string   // category of the first step after which the container was internally inconsistent (class naming only)
+	onNotify func()   // leave part: runs once, inside the container's first listener, at its next notification (re-entrant Unmonitor)
 }
 
 func newWatched(exclusive, observe bool) *watched {
@@ -31,6 +32,11 @@ func newWatched(exclusive, observe bool) *watched {
 		i := i
 		w.c.AddListener(func() {
 			w.notified[i]++
+			if i == 0 && w.onNotify != nil {
+				f := w.onNotify
+				w.onNotify = nil
+				f()
+			}
 			if w.observe {
 				w.seen[i] = append([]string{}, w.c.Values()...)
 			}
